@@ -146,7 +146,16 @@ func cmdCheck(args []string) int {
 				rec["replay"] = rp
 				fmt.Printf("VIOLATION property=%s replay=%s\n", id, rp)
 				fmt.Printf("  what: [%s] %s (on %d path(s) of run %s)\n", g.First.Kind, g.First.Label, g.Count, res.Cfg.Name)
-				if len(g.First.Model) > 0 {
+				if g.First.Witness != nil {
+					w := map[string]interface{}{}
+					for k, v := range g.First.Witness {
+						if k != "strings" {
+							w[k] = v
+						}
+					}
+					b, _ := json.Marshal(w)
+					fmt.Printf("  solver model (concretised): %s\n", b)
+				} else if len(g.First.Model) > 0 {
 					b, _ := json.Marshal(g.First.Model)
 					fmt.Printf("  solver model: %s\n", b)
 				}
